@@ -31,9 +31,14 @@ type c12Method struct {
 	WriteHeld  map[string]bool
 	Vector     []ReplayVal
 	Params     map[string]int
+	AccessVec  map[c12Access][]ReplayVal // inputs of a path that performs the access
+	AccessPar  map[c12Access]map[string]int
+	IntraVec   map[string][]ReplayVal
 }
 
 type c12Finding struct {
+	accA    c12Access
+	intra   string
 	Kind    string `json:"kind"` // race, atomicity, discipline
 	A, B    int
 	Loc     string `json:"loc"`
@@ -47,6 +52,9 @@ func summarizeTracks(m *c12Method, tracks []*trackState) {
 	for _, t := range tracks {
 		m.Paths++
 		for _, v := range t.violations {
+			if m.IntraVec[v] == nil && t.vector != nil {
+				m.IntraVec[v] = t.vector
+			}
 			dup := false
 			for _, x := range m.Intra {
 				if x == v {
@@ -61,7 +69,12 @@ func summarizeTracks(m *c12Method, tracks []*trackState) {
 		for _, e := range t.events {
 			switch e.Kind {
 			case "R", "W":
-				m.Accesses[c12Access{e.Loc, e.Kind == "W", e.Held}] = true
+				ac := c12Access{e.Loc, e.Kind == "W", e.Held}
+				m.Accesses[ac] = true
+				if m.AccessVec[ac] == nil && t.vector != nil {
+					m.AccessVec[ac] = t.vector
+					m.AccessPar[ac] = t.params
+				}
 				if e.Kind == "W" {
 					writes++
 					m.WriteHeld[e.Held] = true
@@ -127,7 +140,7 @@ func c12Pairs(z *Solver, A, B *c12Method, queries *int, solverTime *time.Duratio
 			}
 			sat, model := ask(sb.String())
 			if sat {
-				out = append(out, c12Finding{Kind: "race", A: A.Index, B: B.Index, Loc: a.Loc,
+				out = append(out, c12Finding{accA: a, Kind: "race", A: A.Index, B: B.Index, Loc: a.Loc,
 					Detail: fmt.Sprintf("%s %s %s (lock: %q) unordered with %s %s %s (lock: %q)", A.Name, rw(a.Write), a.Loc, a.Held, B.Name, rw(b.Write), b.Loc, b.Held), Model: model})
 			}
 		}
@@ -136,6 +149,18 @@ func c12Pairs(z *Solver, A, B *c12Method, queries *int, solverTime *time.Duratio
 	if A.MultiWrite {
 		for b := range B.Accesses {
 			if b.Write {
+				continue
+			}
+			// only reads of a location that A writes observe A's half-applied state
+			writesIt := false
+			var wacc c12Access
+			for a := range A.Accesses {
+				if a.Write && a.Loc == b.Loc {
+					writesIt = true
+					wacc = a
+				}
+			}
+			if !writesIt {
 				continue
 			}
 			for held := range A.WriteHeld {
@@ -155,7 +180,7 @@ func c12Pairs(z *Solver, A, B *c12Method, queries *int, solverTime *time.Duratio
 				}
 				sat, model := ask(sb.String())
 				if sat {
-					out = append(out, c12Finding{Kind: "atomicity", A: A.Index, B: B.Index, Loc: b.Loc,
+					out = append(out, c12Finding{accA: wacc, Kind: "atomicity", A: A.Index, B: B.Index, Loc: b.Loc,
 						Detail: fmt.Sprintf("%s reads %s (lock: %q) between two guarded writes of one %s call (writes under lock %q)", B.Name, b.Loc, b.Held, A.Name, held), Model: model})
 				}
 			}
